@@ -1,23 +1,14 @@
 /-
 C09 — the dataset-level operations keep a world of datasets rectangular and well formed.
 -/
-import Midgard.Proofs.DatasetExtendFields
+import Midgard.Proofs.DatasetDiff
 
 namespace Midgard.Dataset
 
-/-- structural well-formedness of a dataset: unique names in every collection, no empty collection
-nested in a collection (a top-level collection may be empty) -/
+/-- structural well-formedness of a dataset: unique names in every collection -/
 structure DSOK (d : DS) : Prop where
   nodup : (names d.fields).Nodup
   wff : ∀ f ∈ d.fields, WFF f
-
-theorem shapeOKs_of_wff : ∀ (fs : List Field), (∀ f ∈ fs, WFF f) → ShapeOK.ShapeOKs fs
-  | [], _ => by simp [ShapeOK.ShapeOKs]
-  | f :: fs, h => by
-    simp only [ShapeOK.ShapeOKs]
-    exact ⟨WFF.shapeOK f (h f (by simp)), shapeOKs_of_wff fs (fun c hc => h c (List.mem_cons_of_mem _ hc))⟩
-
-theorem DSOK.dswf {d : DS} (ok : DSOK d) : DSWF d := ⟨shapeOKs_of_wff d.fields ok.wff⟩
 
 theorem sameShapes_mem : ∀ {fs fs' : List Field}, SameShape.SameShapes fs fs' → ∀ c' ∈ fs', ∃ c ∈ fs, SameShape c c'
   | [], _, hh, c', hc' => by simp only [SameShape.SameShapes] at hh; subst hh; simp at hc'
@@ -33,7 +24,7 @@ theorem sameShapes_mem : ∀ {fs fs' : List Field}, SameShape.SameShapes fs fs' 
 theorem dsSubset_ok (idx : Index) (h : Heap) (d : DS) (h' : Heap) (d' : DS)
     (hok : dsSubset idx h d = .ok (h', d')) (ok : DSOK d) :
     HeapExt h h' ∧ Rect h' d' ∧ DSOK d' ∧ d'.numObs = idx.count := by
-  obtain ⟨e, hi, hc, hr, _⟩ := dsSubset_spec idx h d h' d' hok ok.dswf
+  obtain ⟨e, hi, hc, hr⟩ := dsSubset_spec idx h d h' d' hok
   have sh := FieldsImg.sameShapes d.fields d'.fields hi
   refine ⟨e, hr, ⟨by rw [SameShapes.names sh]; exact ok.nodup, ?_⟩, hc⟩
   intro c' hc'
@@ -58,16 +49,16 @@ theorem dsExtend_ok (us : Units) (h : Heap) (d e : DS) (h' : Heap) (d' : DS)
       have hm : MemoGood (d.numObs + e.numObs) { heap := h } := by intro a v hav; simp at hav
       have hf_rect := (rectFields_iff d.fields).mp hd
       have hg_rect := (rectFields_iff e.fields).mp he
-      have inv0 : AccInv h d.numObs e.numObs false (names d.fields) (fun _ => False) d.fields :=
-        ⟨okd.nodup, fun c hc => ⟨okd.wff c hc, fun hf => (by cases hf), fun hx => absurd hx id,
+      have inv0 : AccInv h d.numObs e.numObs (names d.fields) (fun _ => False) d.fields :=
+        ⟨okd.nodup, fun c hc => ⟨okd.wff c hc, fun hx => absurd hx id,
           fun _ => ⟨hf_rect c hc, List.mem_map_of_mem hc⟩⟩⟩
-      obtain ⟨⟨e1, m1⟩, inv1, _⟩ := loop1_spec us d.numObs e.numObs false (names d.fields) e.fields (fun _ => False)
+      obtain ⟨⟨e1, m1⟩, inv1⟩ := loop1_spec us d.numObs e.numObs (names d.fields) e.fields (fun _ => False)
         d.fields { heap := h } acc1 s1 hloop hm inv0
-        (fun g hg => ⟨hg_rect g hg, oke.wff g hg, fun hf => (by cases hf)⟩) oke.nodup (fun g _ hx => hx)
-      obtain ⟨⟨e2, _⟩, hall, hnames⟩ := appendLoop_spec d.numObs e.numObs false _ acc1 s1 fs' s2 hfin m1 (by
+        (fun g hg => ⟨hg_rect g hg, oke.wff g hg⟩) oke.nodup (fun g _ hx => hx)
+      obtain ⟨⟨e2, _⟩, hall, hnames⟩ := appendLoop_spec d.numObs e.numObs _ acc1 s1 fs' s2 hfin m1 (by
         intro c hc
-        obtain ⟨c1, c2, c3, c4⟩ := inv1.each c hc
-        refine ⟨c1, c2, ?_, ?_⟩
+        obtain ⟨c1, c3, c4⟩ := inv1.each c hc
+        refine ⟨c1, ?_, ?_⟩
         · intro hp
           by_cases hx : (False ∨ c.name ∈ names e.fields)
           · have hx' : c.name ∈ names e.fields := by simpa using hx
@@ -92,7 +83,22 @@ theorem dsExtend_ok (us : Units) (h : Heap) (d e : DS) (h' : Heap) (d' : DS)
             · exact h0 hin
             · exact hx' h0)
       refine ⟨e1.trans e2, ?_, ⟨by show (names fs').Nodup; rw [hnames]; exact inv1.nodup, fun c hc => (hall c hc).1⟩, rfl⟩
-      exact (rectFields_iff fs').mpr (fun c hc => (hall c hc).2.2)
+      exact (rectFields_iff fs').mpr (fun c hc => (hall c hc).2)
+
+/-- **`Dataset.difference`**: the result is a rectangular, well-formed table with one row per paired row —
+whatever the operands were (the selections have the right length or the operation fails) -/
+theorem dsDifference_ok (us : Units) (h : Heap) (d e : DS) (ib : Option (List String)) (cs co : Bool) (h' : Heap) (r : DS)
+    (hok : dsDifference us h d e ib cs co = .ok (h', r)) : HeapExt h h' ∧ Rect h' r ∧ DSOK r := by
+  obtain ⟨si, oi, cnt, hidx, _, hn, e1, nd, hall⟩ := dsDifference_spec us h d e ib cs co h' r hok
+  obtain ⟨hs, ho⟩ := diffIndex_counts hidx
+  have each : ∀ x ∈ r.fields, RectField h' cnt x ∧ WFF x := by
+    intro x hx
+    rcases hall x hx with h0 | h0
+    · exact ⟨DiffAny.rect hs ho _ _ x h0, DiffAny.wff _ _ x h0⟩
+    · exact h0.1.rect hs
+  refine ⟨e1, ?_, ⟨nd, fun x hx => (each x hx).2⟩⟩
+  simp only [Rect]; rw [hn]
+  exact (rectFields_iff r.fields).mpr (fun x hx => (each x hx).1)
 
 /-! ### sorting (`merge_with(sort_by=…)`) -/
 
@@ -144,7 +150,7 @@ theorem dsSort_ok (h : Heap) (d : DS) (p : Path) (h' : Heap) (d' : DS)
         obtain ⟨rfl, rfl⟩ := hok
         have hm : MemoInv (Index.ints ((argsortStable keys).map Int.ofNat)) { heap := h } := by
           intro k v hkv; simp at hkv
-        obtain ⟨⟨e, _⟩, hi⟩ := subsetFields_spec _ d.fields { heap := h } fs s hr hm ok.dswf.shape
+        obtain ⟨⟨e, _⟩, hi⟩ := subsetFields_spec _ d.fields { heap := h } fs s hr hm
         have hlen : keys.length = d.numObs := keyColumn_length hkeys (findField_mem p d.fields f h d.numObs hfind hd)
         have hcount : (Index.ints ((argsortStable keys).map Int.ofNat)).count = d.numObs := by
           simp only [Index.count, List.length_map]
@@ -219,37 +225,36 @@ theorem getField_none {fs : List Field} {n : String} (h : getField fs n = none) 
   exact h c hc (by simp)
 
 /-- what every field of a (sub)collection satisfies -/
-def FieldOK (h : Heap) (n : Nat) (deep : Bool) (c : Field) : Prop :=
-  RectField h n c ∧ WFF c ∧ (deep = true → c.nonEmpty)
+def FieldOK (h : Heap) (n : Nat) (c : Field) : Prop := RectField h n c ∧ WFF c
 
-theorem coll_ok_of_children {h : Heap} {n : Nat} {nm : String} {no l : Nat} {sub : List Field} {deep : Bool}
-    (hno : no = n) (hall : ∀ c ∈ sub, FieldOK h n true c) (hnd : (names sub).Nodup) (hne : sub ≠ []) :
-    FieldOK h n deep (.coll nm no l sub) := by
-  refine ⟨?_, ?_, fun _ => hne⟩
+theorem coll_ok_of_children {h : Heap} {n : Nat} {nm : String} {no l : Nat} {sub : List Field}
+    (hno : no = n) (hall : ∀ c ∈ sub, FieldOK h n c) (hnd : (names sub).Nodup) :
+    FieldOK h n (.coll nm no l sub) := by
+  refine ⟨?_, ?_⟩
   · simp only [RectField]; exact ⟨(rectFields_iff sub).mpr (fun c hc => (hall c hc).1), hno⟩
-  · simp only [WFF]; exact ⟨hnd, (WFFs_iff sub).mpr (fun c hc => ⟨(hall c hc).2.1, (hall c hc).2.2 rfl⟩)⟩
+  · simp only [WFF]; exact ⟨hnd, (WFFs_iff sub).mpr (fun c hc => (hall c hc).2)⟩
 
 /-- `_add_field`: creating the missing collections and putting the new field into its container -/
-theorem addAt_spec (h : Heap) (n : Nat) (f : Field) (hf : FieldOK h n true f) : ∀ (p : Path) (deep : Bool)
-    (fs fs' : List Field), addAt n f p fs = .ok fs' → (∀ c ∈ fs, FieldOK h n deep c) → (names fs).Nodup →
-    (∀ c ∈ fs', FieldOK h n deep c) ∧ (names fs').Nodup ∧ fs' ≠ []
-  | [], deep, fs, fs', hok, hall, hnd => by
+theorem addAt_spec (h : Heap) (n : Nat) (f : Field) (hf : FieldOK h n f) : ∀ (p : Path)
+    (fs fs' : List Field), addAt n f p fs = .ok fs' → (∀ c ∈ fs, FieldOK h n c) → (names fs).Nodup →
+    (∀ c ∈ fs', FieldOK h n c) ∧ (names fs').Nodup
+  | [], fs, fs', hok, hall, hnd => by
     simp only [addAt] at hok
     split at hok
     · rename_i g hget
       simp only [Except.ok.injEq] at hok; subst hok
-      exact ⟨hall, hnd, by intro h0; rw [h0] at hget; simp [getField] at hget⟩
+      exact ⟨hall, hnd⟩
     · rename_i hget
       simp only [Except.ok.injEq] at hok; subst hok
-      refine ⟨?_, ?_, by simp⟩
+      refine ⟨?_, ?_⟩
       · intro c hc
         rcases List.mem_append.mp hc with hc | hc
         · exact hall c hc
-        · simp at hc; subst hc; exact ⟨hf.1, hf.2.1, fun _ => hf.2.2 rfl⟩
+        · simp at hc; subst hc; exact hf
       · simp only [names, List.map_append, List.map_cons, List.map_nil]
         exact List.nodup_append.mpr ⟨hnd, by simp, by
           intro a ha b hb; simp at hb; subst hb; intro he; exact getField_none hget (he ▸ ha)⟩
-  | c :: rest, deep, fs, fs', hok, hall, hnd => by
+  | c :: rest, fs, fs', hok, hall, hnd => by
     simp only [addAt] at hok
     split at hok
     · -- the collection does not exist yet
@@ -258,12 +263,12 @@ theorem addAt_spec (h : Heap) (n : Nat) (f : Field) (hf : FieldOK h n true f) : 
       · simp at hok
       · rename_i sub hsub
         simp only [Except.ok.injEq] at hok; subst hok
-        obtain ⟨a1, a2, a3⟩ := addAt_spec h n f hf rest true [] sub hsub (by simp) (by simp [names])
-        refine ⟨?_, ?_, by simp⟩
+        obtain ⟨a1, a2⟩ := addAt_spec h n f hf rest [] sub hsub (by simp) (by simp [names])
+        refine ⟨?_, ?_⟩
         · intro x hx
           rcases List.mem_append.mp hx with hx | hx
           · exact hall x hx
-          · simp at hx; subst hx; exact coll_ok_of_children rfl a1 a2 a3
+          · simp at hx; subst hx; exact coll_ok_of_children rfl a1 a2
         · simp only [names, List.map_append, List.map_cons, List.map_nil]
           exact List.nodup_append.mpr ⟨hnd, by simp, by
             intro a ha b hb; simp [Field.name] at hb; subst hb; intro he; exact getField_none hget (he ▸ ha)⟩
@@ -273,17 +278,17 @@ theorem addAt_spec (h : Heap) (n : Nat) (f : Field) (hf : FieldOK h n true f) : 
       · rename_i sub' hsub
         simp only [Except.ok.injEq] at hok; subst hok
         obtain ⟨hmem, hnm⟩ := getField_some hget
-        obtain ⟨hr, hw, _⟩ := hall _ hmem
+        obtain ⟨hr, hw⟩ := hall _ hmem
         simp only [RectField] at hr
         simp only [WFF] at hw
         have hsubr := (rectFields_iff sub).mp hr.1
         have hsubw := (WFFs_iff sub).mp hw.2
-        obtain ⟨a1, a2, a3⟩ := addAt_spec h n f hf rest true sub sub' hsub
-          (fun x hx => ⟨hsubr x hx, (hsubw x hx).1, fun _ => (hsubw x hx).2⟩) hw.1
-        refine ⟨?_, nodup_setField hnd, setField_ne_nil _ _⟩
+        obtain ⟨a1, a2⟩ := addAt_spec h n f hf rest sub sub' hsub
+          (fun x hx => ⟨hsubr x hx, hsubw x hx⟩) hw.1
+        refine ⟨?_, nodup_setField hnd⟩
         intro x hx
         rcases mem_setField_nodup hnd hx with rfl | hx
-        · exact coll_ok_of_children hr.2 a1 a2 a3
+        · exact coll_ok_of_children hr.2 a1 a2
         · exact hall x hx.1
     · simp at hok
 
@@ -312,42 +317,36 @@ theorem dsAdd_ok (h : Heap) (d : DS) (p : Path) (k : Kind) (o : Nat) (u : Option
               · simp at hok
               · rename_i fs hfs
                 simp only [Except.ok.injEq] at hok; subst hok
-                have hleaf : FieldOK h d.numObs true (.leaf nm k o d.numObs (fieldUnit k ob.cols u) l) :=
-                  ⟨by simp only [RectField]; exact ⟨hgood, trivial⟩, by simp [WFF], fun _ => by simp [Field.nonEmpty]⟩
+                have hleaf : FieldOK h d.numObs (.leaf nm k o d.numObs (fieldUnit k ob.cols u) l) :=
+                  ⟨by simp only [RectField]; exact ⟨hgood, trivial⟩, by simp [WFF]⟩
                 have hrect := (rectFields_iff d.fields).mp hd
-                obtain ⟨a1, a2, _⟩ := addAt_spec h d.numObs _ hleaf revColl.reverse false d.fields fs hfs
-                  (fun c hc => ⟨hrect c hc, ok.wff c hc, fun hf => (by cases hf)⟩) ok.nodup
-                exact ⟨(rectFields_iff fs).mpr (fun c hc => (a1 c hc).1), ⟨a2, fun c hc => (a1 c hc).2.1⟩, rfl⟩
+                obtain ⟨a1, a2⟩ := addAt_spec h d.numObs _ hleaf revColl.reverse d.fields fs hfs
+                  (fun c hc => ⟨hrect c hc, ok.wff c hc⟩) ok.nodup
+                exact ⟨(rectFields_iff fs).mpr (fun c hc => (a1 c hc).1), ⟨a2, fun c hc => (a1 c hc).2⟩, rfl⟩
 
-/-- **`dset.add_collection(name)`** at the top level keeps the table rectangular (an empty collection
-*inside* a collection is the one shape the invariant excludes: `Collection.__len__` cannot tell its rows) -/
-theorem dsAddColl_ok (h : Heap) (d : DS) (nm : String) (l : Nat) (d' : DS)
-    (hok : dsAddColl d [nm] l = .ok d') (hd : Rect h d) (ok : DSOK d) :
+/-- **`dset.add_collection(path)`** keeps the table rectangular: the new collection field remembers the
+number of rows of the dataset (at any nesting depth, after the `fix:` of `Collection.__len__`) -/
+theorem dsAddColl_ok (h : Heap) (d : DS) (p : Path) (l : Nat) (d' : DS)
+    (hok : dsAddColl d p l = .ok d') (hd : Rect h d) (ok : DSOK d) :
     Rect h d' ∧ DSOK d' ∧ d'.numObs = d.numObs := by
-  simp only [dsAddColl, List.reverse_cons, List.reverse_nil, List.nil_append, List.isEmpty_nil, Bool.true_and,
-    Bool.not_true, Bool.false_and] at hok
+  simp only [dsAddColl] at hok
   split at hok
   · simp at hok
-  · rename_i hex
-    simp only [Bool.false_eq_true, if_false, addAt] at hok
-    have hnone : getField d.fields nm = none := by
-      cases hg : getField d.fields nm with
-      | none => rfl
-      | some x => simp [hg] at hex
-    simp only [Field.name, hnone, Except.ok.injEq] at hok; subst hok
-    have hrect := (rectFields_iff d.fields).mp hd
-    refine ⟨(rectFields_iff _).mpr ?_, ⟨?_, ?_⟩, rfl⟩
-    · intro c hc
-      rcases List.mem_append.mp hc with hc | hc
-      · exact hrect c hc
-      · simp at hc; subst hc; simp [RectField, RectField.RectFields]
-    · simp only [names, List.map_append, List.map_cons, List.map_nil]
-      exact List.nodup_append.mpr ⟨ok.nodup, by simp, by
-        intro a ha b hb; simp [Field.name] at hb; subst hb; intro he; exact getField_none hnone (he ▸ ha)⟩
-    · intro c hc
-      rcases List.mem_append.mp hc with hc | hc
-      · exact ok.wff c hc
-      · simp at hc; subst hc; simp [WFF, names, WFF.WFFs]
+  · rename_i nm revColl _
+    split at hok
+    · simp at hok
+    · split at hok
+      · simp only [Except.ok.injEq] at hok; subst hok; exact ⟨hd, ok, rfl⟩
+      · split at hok
+        · simp at hok
+        · rename_i fs hfs
+          simp only [Except.ok.injEq] at hok; subst hok
+          have hnew : FieldOK h d.numObs (.coll nm d.numObs l []) :=
+            ⟨by simp [RectField, RectField.RectFields], by simp [WFF, names, WFF.WFFs]⟩
+          have hrect := (rectFields_iff d.fields).mp hd
+          obtain ⟨a1, a2⟩ := addAt_spec h d.numObs _ hnew revColl.reverse d.fields fs hfs
+            (fun c hc => ⟨hrect c hc, ok.wff c hc⟩) ok.nodup
+          exact ⟨(rectFields_iff fs).mpr (fun c hc => (a1 c hc).1), ⟨a2, fun c hc => (a1 c hc).2⟩, rfl⟩
 
 /-! ### the world -/
 
@@ -404,7 +403,6 @@ theorem WOK.set {w : W} (ok : WOK w) {d : Nat} {x : DS} {h' : Heap} (e : HeapExt
 as the dataset (the code checks only the array itself) -/
 def Valid (w : W) : Op → Prop
   | .add d _ _ val _ _ => ∀ o x, w.resolve val = .ok o → w.getDs d = .ok x → Good w.heap x.numObs o
-  | .addColl _ path _ => path.length = 1
   | _ => True
 
 theorem mergeLoop_ok (us : Units) (w : W) (okw : WOK w) (di : Nat) : ∀ (es : List Nat) (h : Heap) (d : DS) (h' : Heap) (d' : DS),
@@ -477,12 +475,7 @@ theorem step_ok (w : W) (op : Op) (w' : W) (out : Out) (hs : step w op = .ok (w'
         simp only [Except.ok.injEq, Prod.mk.injEq] at hs
         obtain ⟨rfl, _⟩ := hs
         obtain ⟨r, kk⟩ := ok d x hx
-        have hp : ∃ nm, path = [nm] := by
-          have : path.length = 1 := hv
-          match path, this with
-          | [nm], _ => exact ⟨nm, rfl⟩
-        obtain ⟨nm, rfl⟩ := hp
-        obtain ⟨r', k', _⟩ := dsAddColl_ok w.heap x nm l x' hadd r kk
+        obtain ⟨r', k', _⟩ := dsAddColl_ok w.heap x path l x' hadd r kk
         exact ⟨WOK.set ok (HeapExt.refl _) ⟨r', k'⟩, HeapExt.refl _⟩
   | del d path =>
     simp only [step] at hs
@@ -572,6 +565,19 @@ theorem step_ok (w : W) (op : Op) (w' : W) (out : Out) (hs : step w op = .ok (w'
       · simp only [Except.ok.injEq, Prod.mk.injEq] at hs
         obtain ⟨rfl, _⟩ := hs
         exact ⟨ok, HeapExt.refl _⟩
+  | difference d e r ib cs co =>
+    simp only [step] at hs
+    split at hs
+    · rename_i x y hx hy
+      split at hs
+      · simp at hs
+      · rename_i h' z hdiff
+        simp only [Except.ok.injEq, Prod.mk.injEq] at hs
+        obtain ⟨rfl, _⟩ := hs
+        obtain ⟨e1, r', k'⟩ := dsDifference_ok w.units w.heap x y ib cs co h' z hdiff
+        exact ⟨WOK.set ok e1 ⟨r', k'⟩, e1⟩
+    · simp at hs
+    · simp at hs
 
 /-- a history: every operation succeeds and every `add` is handed a consistent object -/
 inductive Run : W → List Op → W → Prop
